@@ -78,7 +78,11 @@ CommitBad(r) ==
     {j \in Idx(r) : Lines[j].ev = "batched" /\ Lines[j].cur >= Hdr(r).maxsize /\
                     ~(\E k \in NextWorker(r, j) : Lines[k].ev = "commit" /\ Lines[k].reason = "size")} \cup
     {j \in Idx(r) : Lines[j].ev = "commit" /\ Lines[j].reason = "age" /\
-                    \E k \in FirstBatched(r, j) : 3 * (Lines[j].t - Lines[k].t) < 1000 * Hdr(r).maxage_ms}
+                    \E k \in FirstBatched(r, j) : 3 * (Lines[j].t - Lines[k].t) < 1000 * Hdr(r).maxage_ms} \cup
+    \* the age limit counts from the FIRST operation of the batch: a submission that starts more than
+    \* 6 x MaxBatchAge after it must not find that batch still uncommitted (at most 2 failures are injected)
+    {j \in Idx(r) : Lines[j].ev = "call" /\ Hdr(r).batching /\
+                    \E k \in FirstBatched(r, j) : Lines[j].t - Lines[k].t > 6 * 1000 * Hdr(r).maxage_ms}
 
 \* at the end nothing accepted is still waiting (queue, worker or uncommitted batch)
 PendingBad(r) ==
@@ -104,7 +108,7 @@ VARIABLES run, i, pend, parm, expect
 tvars == <<vars, run, i, pend, parm, expect>>
 basevars == vars
 
-ASSUME \A r \in 1..NRuns : TLCSet(r, 0)
+ASSUME \A r \in 1..(2 * NRuns) : TLCSet(r, 0)
 
 CfgOf(h, ar) == [batching |-> h.batching, maxsize |-> h.maxsize, maxq |-> h.maxq, agereset |-> ar]
 
@@ -147,12 +151,16 @@ TObs == /\ More /\ L.ev = "obs"
 TraceNext == TCall \/ TSubmit \/ TRet \/ TArmCall \/ TDoArm \/ TArmRet \/ TWorkerOut \/ TWorkerStep \/ TObs
 TraceSpec == TraceInit /\ [][TraceNext]_tvars
 
-\* high-water mark per run (evaluated on every state; always TRUE)
-Mark == TLCSet(run, IF TLCGet(run) > i THEN TLCGet(run) ELSE i)
-
 \* the design-level invariants are also evaluated on every state a recorded run reaches
 TraceInv == EffectIsPrefix /\ HooksCover
 
+\* high-water mark per run (evaluated on every state; always TRUE)
+Mark == /\ TLCSet(run, IF TLCGet(run) > i THEN TLCGet(run) ELSE i)
+        \* the specification's invariants are evaluated on every state that explains a recorded run;
+        \* the first line at which one fails is remembered (register NRuns + run), never aborting the other runs
+        /\ (~(TraceInv) /\ TLCGet(NRuns + run) = 0) => TLCSet(NRuns + run, i)
+
+
 Finish == ndJsonSerialize(IOEnv.VERDICT_FILE,
-            <<[n |-> NRuns, hwm |-> [r \in 1..NRuns |-> TLCGet(r)], runs |-> [r \in 1..NRuns |-> Verdict(r)]]>>)
+            <<[n |-> NRuns, hwm |-> [r \in 1..NRuns |-> TLCGet(r)], invbad |-> [r \in 1..NRuns |-> TLCGet(NRuns + r)], runs |-> [r \in 1..NRuns |-> Verdict(r)]]>>)
 =============================================================================
